@@ -36,7 +36,11 @@ def build_replay(repo, features=("fast-float-parsing",)):
         open(os.path.join(d, "Cargo.lock"), "w").write(open(lock).read())
     env = dict(os.environ, CARGO_NET_OFFLINE="true", CARGO_TARGET_DIR=os.path.join(d, "target"))
     env.pop("RUSTUP_TOOLCHAIN", None)
-    r = subprocess.run(["cargo", "build", "--release", "--offline", "-q"], cwd=d, env=env, capture_output=True, text=True)
+    cmd = ["cargo", "build", "--release", "--offline", "-q"]
+    if "fast-float-parsing" not in features:
+        # serde-lexpr would switch lexpr's default features back on (feature unification): leave the serde families out of this build
+        cmd.append("--no-default-features")
+    r = subprocess.run(cmd, cwd=d, env=env, capture_output=True, text=True)
     if r.returncode != 0:
         _log("replay build failed:\n" + r.stderr[-3000:])
         return None
@@ -167,38 +171,42 @@ def standin_search(prop, repo, tier="quick", seed=0):
     fams = P.get("bounded", [])
     if not fams:
         return results, None
-    exe = build_replay(repo, ("fast-float-parsing",))
-    if exe is None:
-        return [dict(family=b["family"], status="replay crate did not build; stand-in not run") for b in fams], None
-    for b in fams:
-        fam = b["family"]
-        try:
-            mode = ("standin quick:%d" if tier != "thorough" else "standin thorough:%d") % (seed + 1)
-            r = subprocess.run([exe, "find", fam, mode] + _skip_args(prop), capture_output=True, text=True, timeout=1500)
-        except subprocess.TimeoutExpired:
-            results.append(dict(b, status="timeout"))
-            continue
-        known_seen = [l[6:] for l in r.stdout.strip().split("\n") if l.startswith("KNOWN ")]
-        lines = [l for l in r.stdout.strip().split("\n") if not l.startswith("KNOWN ")]
-        if known_seen:
-            b = dict(b, known_finding_witnesses=known_seen)
-        if r.returncode == 1 and lines and lines[0].startswith("FOUND "):
-            d = os.path.join(VERIF, "replays", prop)
-            os.makedirs(d, exist_ok=True)
-            oid = "%s/bounded-standin/%s" % (prop, fam)
-            path = os.path.join(d, "bounded_standin_%s.json" % fam)
-            rec = dict(property=prop, obligation=oid, checker="bounded stand-in (witness family on the real code; not a proof)",
-                       family=fam, witness=lines[0][6:], observed="\n".join(lines[1:]), features=["fast-float-parsing"], bounded=True, repo=repo,
-                       note="this concrete input contradicts the property on the real code")
-            with open(path, "w") as f:
-                json.dump(rec, f, indent=1)
-            results.append(dict(b, status="failing input found", witness=lines[0][6:]))
-            if found is None:
-                found = (path, oid)
-        elif r.returncode == 0 and lines and lines[-1].startswith("NOTFOUND"):
-            results.append(dict(b, status="no failing input", cases=int(lines[-1].split()[1]), mode=mode + (" (thorough tier: the families c03 c06 c10 c11 c12 c19 add 200-600 seeded random token-alphabet texts, a third of them with one byte deleted/replaced/truncated)" if tier == "thorough" else " (quick tier: a quarter of the thorough tier's seeded random texts)")))
-        else:
-            results.append(dict(b, status="stand-in did not run: rc=%s %s" % (r.returncode, (r.stderr or r.stdout)[-200:])))
+    cfgs = [("fast-float-parsing",)] + ([()] if registry_needs_nofast(prop) else [])
+    mode = ("standin quick:%d" if tier != "thorough" else "standin thorough:%d") % (seed + 1)
+    for feats in cfgs:
+        exe = build_replay(repo, feats)
+        if exe is None:
+            return [dict(family=b["family"], status="replay crate did not build; stand-in not run") for b in fams], None
+        for b in fams:
+            fam = b["family"]
+            if not feats:
+                b = dict(b, build="lexpr built WITHOUT its default feature fast-float-parsing (std float parsing path)")
+            try:
+                r = subprocess.run([exe, "find", fam, mode] + _skip_args(prop), capture_output=True, text=True, timeout=1500)
+            except subprocess.TimeoutExpired:
+                results.append(dict(b, status="timeout"))
+                continue
+            known_seen = [l[6:] for l in r.stdout.strip().split("\n") if l.startswith("KNOWN ")]
+            lines = [l for l in r.stdout.strip().split("\n") if not l.startswith("KNOWN ")]
+            if known_seen:
+                b = dict(b, known_finding_witnesses=known_seen)
+            if r.returncode == 1 and lines and lines[0].startswith("FOUND "):
+                d = os.path.join(VERIF, "replays", prop)
+                os.makedirs(d, exist_ok=True)
+                oid = "%s/bounded-standin/%s" % (prop, fam)
+                path = os.path.join(d, "bounded_standin_%s.json" % fam)
+                rec = dict(property=prop, obligation=oid, checker="bounded stand-in (witness family on the real code; not a proof)",
+                           family=fam, witness=lines[0][6:], observed="\n".join(lines[1:]), features=list(feats), bounded=True, repo=repo,
+                           note="this concrete input contradicts the property on the real code")
+                with open(path, "w") as f:
+                    json.dump(rec, f, indent=1)
+                results.append(dict(b, status="failing input found", witness=lines[0][6:]))
+                if found is None:
+                    found = (path, oid)
+            elif r.returncode == 0 and lines and lines[-1].startswith("NOTFOUND"):
+                results.append(dict(b, status="no failing input", cases=int(lines[-1].split()[1]), mode=mode + (" (thorough tier: the families c03 c06 c10 c11 c12 c19 add 200-600 seeded random token-alphabet texts, a third of them with one byte deleted/replaced/truncated)" if tier == "thorough" else " (quick tier: a quarter of the thorough tier's seeded random texts)")))
+            else:
+                results.append(dict(b, status="stand-in did not run: rc=%s %s" % (r.returncode, (r.stderr or r.stdout)[-200:])))
     return results, found
 
 
